@@ -39,6 +39,10 @@ AllDev == {"AESKeepsPadding",            \* decrypt_aes128/256 return the PKCS#7
            "SaslprepErrorEscapes",       \* R6: saslprep raises PDFValueError on prohibited characters
            "SaslprepEmptyIndexError",    \* R6: saslprep indexes data[0] after mapping everything to nothing
            "ImplicitIdentityKeyError",   \* V4 without StmF/StrF (default Identity): KeyError 'StmF'
+           "GenFromWholeEntry",          \* cross-reference stream with /W [a b 0]: the (absent) generation field is read from the
+                                         \* whole entry instead of defaulting to 0 - it only feeds the per-object key
+           "DecipherResultDropped",      \* getobj keeps the parsed object and drops what decipher_all RETURNS: an indirect
+                                         \* object that is itself a string (immutable) keeps its ciphertext
            "V4LengthFromDict",           \* V4: key length taken from the top-level /Length (meaningful only for V 2/3)
            "TruncateCharsNotBytes"}      \* R5/R6: password cut to 127 characters before encoding instead of 127 bytes after
 ASSUME \A D \in DevSets : D \subseteq AllDev
@@ -152,7 +156,7 @@ Layer(c, n, g) == [key |-> ObjKey(FileKey(c), n, g, Alg(c)), alg |-> Alg(c)]
 OwnerNG(it) == IF it.loc = "objstm" THEN <<ObjStmId, 0>> ELSE <<it.n, it.g>>
 
 Layers(c, it) ==
-  IF Alg(c) = "ID" THEN <<>>
+  IF Alg(c) = "ID" \/ it.kind = "atom" THEN <<>>        \* (names and numbers are never encrypted)
   ELSE CASE it.loc \in {"direct", "streamdict", "streamdata"} -> <<Layer(c, it.n, it.g)>>
          [] it.loc = "metadata" -> IF c.V >= 4 /\ ~c.em THEN <<>> ELSE <<Layer(c, it.n, it.g)>>
          [] it.loc = "objstm" -> <<Layer(c, ObjStmId, 0)>>   \* encrypted once, as part of the container's data
@@ -160,7 +164,9 @@ Layers(c, it) ==
 
 ItemsOf(c) ==
   {it \in Items :
-     /\ it.loc \in {"objstm", "xrefstm"} => c.form = "xrefstm"
+     /\ it.loc = "objstm" => c.form \in {"xrefstm", "hybrid"}
+     /\ it.loc = "xrefstm" => c.form \in {"xrefstm", "hybrid", "xrefstmw0"}
+     /\ c.form = "xrefstmw0" => it.g = 0          \* /W [1 2 0]: there is no generation field, every generation is 0
      /\ it.loc = "encdict" => c.encplace = "indirect"
      /\ (it.loc = "trailer" /\ it.type = "encrypt") => c.encplace = "direct"
      /\ (it.loc = "trailer" /\ it.type = "id") => c.id = "present"}
@@ -305,21 +311,27 @@ AGetObjCached == /\ phase = "fetch" /\ item.loc = "encdict"
 
 \* getobj: xref.get_pos(objid) -> (None, pos, genno) or (strmid, index, 0); _getobj_parse of the body object;
 \* the parser creates PDFStream(dic, data, doc.decipher)
+\* the generation comes out of the cross-reference entry (table: as written; stream: third field, 0 when its width is 0)
+RdGen(g) == IF cfg.form = "xrefstmw0" /\ "GenFromWholeEntry" \in Dev THEN 99999 ELSE g
 AParseBody == /\ phase = "fetch" /\ item.loc \notin {"trailer", "encdict"}
-              /\ cur' = [n |-> Target.n, g |-> Target.g, stream |-> Target.stream, type |-> Target.type,
+              /\ cur' = [n |-> Target.n, g |-> RdGen(Target.g), stream |-> Target.stream, type |-> Target.type,
                          hasdec |-> Target.stream, sid |-> <<>>]
-              /\ Step("decipher_all") /\ UNCHANGED <<val, calls, blame>>
+              /\ blame' = IF RdGen(Target.g) # Target.g /\ Alg(cfg) \in {"RC4", "AES128"} THEN blame \cup {"GenFromWholeEntry"} ELSE blame
+              /\ Step("decipher_all") /\ UNCHANGED <<val, calls>>
 
 \* getobj: decipher_all(self.decipher, objid, genno, obj) - bytes of length > 0, recursively through list and dict;
 \* a PDFStream is returned as is (its dictionary is not visited)
 ADecipherAll ==
   /\ phase = "decipher_all"
-  /\ LET hit == \/ item.loc = "direct" /\ Len(val.enc) + item.len > 0       \* empty ciphertext is skipped
+  /\ LET hit == \/ item.loc = "direct" /\ item.kind = "string" /\ Len(val.enc) + item.len > 0   \* empty ciphertext is skipped
                 \/ item.loc = "streamdict" /\ "StreamDictNotDeciphered" \notin Dev
+         \* nest = -1: the indirect object IS the string; decipher_all returns a new value, nothing can change in place
+         dropped == item.nest = -1 /\ "DecipherResultDropped" \in Dev
      IN IF hit
-        THEN /\ val' = Decrypt(val, cur.n, cur.g, FALSE, "-")
+        THEN /\ val' = IF dropped THEN val ELSE Decrypt(val, cur.n, cur.g, FALSE, "-")
              /\ calls' = Append(calls, CallRec(cur.n, cur.g, FALSE, "-"))
-             /\ blame' = blame \cup PadBlame(CodeAlg(FALSE, "-"))
+             /\ blame' = IF dropped /\ val.enc # <<>> THEN blame \cup {"DecipherResultDropped"}
+                         ELSE blame \cup PadBlame(CodeAlg(FALSE, "-"))
         ELSE /\ UNCHANGED <<val, calls>>
              /\ blame' = blame \cup (IF item.loc = "streamdict" /\ val.enc # <<>> THEN {"StreamDictNotDeciphered"} ELSE {})
   /\ cur' = cur
@@ -378,6 +390,8 @@ AuthExcuse ==
 ItemExcuse ==
   \/ blame = {"AESKeepsPadding"} /\ val.enc = <<>> /\ val.spur = 0 /\ val.pad
   \/ blame = {"StreamDictNotDeciphered"} /\ LayerCount(val) = 1 /\ val.spur = 0 /\ ~val.pad
+  \/ blame = {"DecipherResultDropped"} /\ LayerCount(val) = 1 /\ val.spur = 0 /\ ~val.pad
+  \/ blame = {"GenFromWholeEntry"} /\ val.spur > 0
 BlameSound == blame \subseteq Dev          \* in particular: the intended design (Dev = {}) needs no excuse at all
 
 \* every observed item of the original is plaintext: layer count 0, never +1 (left encrypted), never -1 (decrypted
@@ -392,7 +406,8 @@ OthersRejected == Done /\ ~RefOpens => outcome = "PDFPasswordIncorrect" \/ AuthE
 PermissionsAsStored == Opened => perms = cfg.perms
 \* every decryption is keyed by the file key and the number and generation of the body object that holds the data
 KeyPerObject == \A i \in 1..Len(calls) :
-                  calls[i].alg = "ID" \/ calls[i].key = ObjKey(FileKey(cfg), OwnerNG(item)[1], OwnerNG(item)[2], calls[i].alg)
+                  \/ calls[i].alg = "ID" \/ "GenFromWholeEntry" \in blame
+                  \/ calls[i].key = ObjKey(FileKey(cfg), OwnerNG(item)[1], OwnerNG(item)[2], calls[i].alg)
 \* streams are deciphered only after set_objid, with the captured decipher
 DecodeAfterSetObjid == phase = "filters" => cur.sid = <<cur.n, cur.g>>
 
